@@ -10,4 +10,7 @@ cp /repo/go.sum mc/go.sum
 ( cd mc && go build -o ../.build/instr ./cmd/instr ) && .build/instr /repo "$(pwd)/.build/ov" "$(pwd)/mc/shim/vsync/vsync.go" \
   && ( cd mc && go build -tags verifsched -overlay ../.build/ov/overlay.json -o ../.build/vcheck-sched ./cmd/vcheck \
        && go build -race -tags verifsched -overlay ../.build/ov/overlay.json -o ../.build/vcheck-race ./cmd/vcheck ) || echo "warning: scheduler/race warm-up build failed"
+# ... and for the map-order build (E4) used by C07/C13/C15/C18
+( cd mc && go build -o ../.build/instrmap ./cmd/instrmap ) && ( export GOFLAGS=; .build/instrmap /repo "$(pwd)/.build/ovm" "$(pwd)/mc/shim/vmap/vmap.go" ) \
+  && ( cd mc && go build -tags verifmap -overlay ../.build/ovm/overlay.json -o ../.build/vcheck-map ./cmd/vcheck ) || echo "warning: map-order warm-up build failed"
 echo setup ok
